@@ -424,7 +424,8 @@ func c01Nonce(c *Ctx) {
 		}
 		got := normBig(be.valueAt(ret.Results[0], ret).String())
 		want := "add(0x1,mod(frombytes(" + buf + "),sub(N,0x1)))"
-		c.Check(got == want, "K-C01-nonce", fn, "k = (bytes mod (n-1)) + 1", "", "nonce is "+got+", expected "+want+" (k in [1,n-1], derived from the bytes read)", ret.Pos())
+		alt := "add(0x1,mod(frombytes(" + buf + "),sub(N,0x2)))" // k in [1,n-2]: equally valid (the form key generation uses)
+		c.Check(got == want || got == alt, "K-C01-nonce", fn, "k = (bytes mod (n-1)) + 1", "", "nonce is "+got+", expected "+want+" (k in [1,n-1], derived from the bytes read)", ret.Pos())
 	}
 }
 
